@@ -6,7 +6,7 @@
 set -u
 SRC=$1; ID=$2
 WT=/tmp/confirm-$ID
-export CARGO_NET_OFFLINE=true CARGO_TARGET_DIR=/tmp/confirm-target
+export CARGO_NET_OFFLINE=true CARGO_TARGET_DIR=${CONFIRM_TARGET:-/tmp/confirm-target}
 BASE_FAIL=/verif/tools/baseline_failures.txt
 git -C /repo worktree remove --force $WT >/dev/null 2>&1
 git -C /repo worktree add -f $WT HEAD >/dev/null 2>&1 || { echo "worktree failed"; exit 2; }
